@@ -235,11 +235,20 @@ def freshPie (spec : PieSpecific) (value : Option String) : PieObj :=
     names := [⟨spec.kind.defaultName, 0, some 1⟩], nameIndex := 1, policy := none, sensitive := false,
     initialDate := 0, owner := none }
 
-/-! ## what the pie constructors refuse (`validate()`) -/
+/-! ## what the pie constructors refuse (`validate()`, setters) -/
+
+/-- SQLite INTEGER: signed 64 bit -/
+def fits64 (n : Int) : Bool := -9223372036854775808 ≤ n && n ≤ 9223372036854775807
+
+/-- the `prime_field_size` setter of `SplitKey` (objects.py l.1296-1310, after the repair 8b96c42): `None` or an
+integer that fits the column; the other four split key setters accept `None` or any integer / a member -/
+def chkPrimeFieldSize : Option Int → C Unit
+  | none => pure ()
+  | some n => if fits64 n then pure () else valErr "The prime field size must fit in a 64-bit signed integer."
 
 /-- `SymmetricKey.validate` l.710-751, `PublicKey.validate` l.885-924, `PrivateKey.validate` l.1056-1095; the value
 is bytes, masks are members and names are strings by construction of this model.  `SplitKey.__init__` (l.1182-1244)
-never calls a `validate`. -/
+never calls a `validate`; its setters run (`chkPrimeFieldSize`). -/
 def validateKey (kk : KeyKind) (k : PieKey) (value : String) : C Unit :=
   match k.alg with
   | none => typeErr "key algorithm must be a CryptographicAlgorithm enumeration"
@@ -275,7 +284,7 @@ def pieOk (p : PieObj) : Bool :=
   | .key _ kk k, some v =>
     (match validateKey kk k v with | .ok _ => true | .error _ => false) &&
     (kk != .symmetric || k.format == some fmtRaw)
-  | .splitKey .., _ => true
+  | .splitKey _ _ s, _ => (match chkPrimeFieldSize s.primeFieldSize with | .ok _ => true | .error _ => false)
   | .secretData _ t, some _ => t.isSome
   | .opaqueObj t, some _ => t.isSome
   | _, none => false
@@ -330,17 +339,21 @@ def coreToPie : CoreObj → C PieObj
     else typeErr "core certificate type not supported"
   | .key kk kb => buildPieKey kk kb
   | .splitKey s kb? => do
-    -- `_build_pie_split_key` l.132-147; the five split key setters accept `None` or an integer / a member
+    -- `_build_pie_split_key` l.132-147: the arguments are read first, then the constructor's setters run
     let kb ← keyBlock kb?
     let alg ← fldValue kb.alg
     let len ← fldValue kb.len
     let value ← materialValue kb?
     let format ← fldValue kb.format
+    chkPrimeFieldSize s.primeFieldSize
     pure (freshPie (.splitKey freshCrypto ⟨alg, len, format, toColumns kb.wrapping⟩ s) (some value))
   | .secretData t kb? => do
-    -- `_build_pie_secret_data` l.121-125 reads the type and the key material, nothing else of the key block
+    -- `_build_pie_secret_data` l.121-133 reads the type and the key material and (after the repair 683f968) refuses
+    -- key wrapping data, which the pie class cannot hold; nothing else of the key block is looked at
     let t ← fldValue t
     let value ← materialValue kb?
+    let kb ← keyBlock kb?
+    if kb.wrapping.isSome then typeErr "core key wrapping data not compatible with Pie SecretData" else
     match t with
     | none => typeErr "secret data type must be a SecretDataType enumeration"
     | some t => pure (freshPie (.secretData freshCrypto (some t)) (some value))
@@ -616,9 +629,7 @@ structure Row where
 
 def Row.classType (r : Row) : String := r.spec.kind.classType
 
-/-- SQLite INTEGER: signed 64 bit; the driver raises `OverflowError` ("Python int too large to convert to SQLite
-INTEGER") beyond it -/
-def fits64 (n : Int) : Bool := -9223372036854775808 ≤ n && n ≤ 9223372036854775807
+/-- the driver raises `OverflowError` ("Python int too large to convert to SQLite INTEGER") beyond `fits64` -/
 def chk64 (n : Int) : C Unit := if fits64 n then pure () else overflowErr "Python int too large to convert to SQLite INTEGER"
 def chk64? : Option Int → C Unit
   | some n => chk64 n
@@ -643,15 +654,17 @@ def chkKey64 (k : PieKey) : C Unit := do
 def chkSplit64 (s : SplitFields) : C Unit := do
   chk64? s.parts; chk64? s.partId; chk64? s.threshold; chk64? s.primeFieldSize
 
+def chkSpec64 : PieSpecific → C Unit
+  | .key _ _ k => chkKey64 k
+  | .splitKey _ k s => do chkKey64 k; chkSplit64 s
+  | _ => pure ()
+
 /-- every integer attribute fits a SQLite INTEGER (`Integer` / `BigInteger` columns alike) -/
 def chkStorable (p : PieObj) : C Unit := do
   chk64 p.nameIndex
   chk64 p.initialDate
   p.names.forM (fun n => chk64 n.index)
-  match p.spec with
-  | .key _ _ k => chkKey64 k
-  | .splitKey _ k s => do chkKey64 k; chkSplit64 s
-  | _ => pure ()
+  chkSpec64 p.spec
 
 /-- the rows the INSERTs of one object write -/
 def rowOf (p : PieObj) : Row :=
